@@ -955,6 +955,257 @@ def batchOp {β γ : Type} (f : β → γ) (xs : List β) : List γ := xs.map f
 def runCalls {β γ : Type} (f : ℝ → β → γ) (calls : List (ℝ × β)) : List γ := calls.map (fun c => f c.1 c.2)
 
 
+/-! ## cancellation -/
+
+theorem Vec3.smul_cancel {c : ℝ} (hc : c ≠ 0) {x y : Vec3 ℝ} (h : x.smul c = y.smul c) : x = y := by
+  have hx := congrArg Vec3.x h; have hy := congrArg Vec3.y h; have hz := congrArg Vec3.z h
+  simp only [Vec3.smul] at hx hy hz
+  ext
+  · exact mul_left_cancel₀ hc hx
+  · exact mul_left_cancel₀ hc hy
+  · exact mul_left_cancel₀ hc hz
+
+theorem Mat3.mulVec_cancel (m : Mat3 ℝ) (h : m.det ≠ 0) {u v : Vec3 ℝ} (e : m.mulVec u = m.mulVec v) : u = v := by
+  rw [← Mat3.inv_mulVec_mulVec m h u, ← Mat3.inv_mulVec_mulVec m h v, e]
+
+
+/-! ## the one-parameter subgroup through `v`; Taylor branch of `Exp` against the closed form; regime 3 of `Log` then `Exp` -/
+
+
+
+/-- closed-form `Exp` along a fixed direction: for `x = c·v` (any sign of `c`) the result is `(v·sin(c‖v‖/2)/‖v‖, cos(c‖v‖/2))` -/
+theorem so3Exp_closed_dir (eps : ℝ) (v : Vec3 ℝ) (c : ℝ) (h0 : 0 ≤ eps) (h : eps < (v.smul c).norm) :
+    so3Exp eps (v.smul c) =
+      Quat.mk' (v.smul (Real.sin (c * v.norm / 2) / v.norm)) (Real.cos (c * v.norm / 2)) := by
+  have hn : (v.smul c).norm = |c| * v.norm := Vec3.norm_smul c v
+  have hpos : 0 < |c| * v.norm := by rw [← hn]; exact lt_of_le_of_lt h0 h
+  have hv0 : 0 < v.norm := by
+    rcases (Vec3.norm_nonneg v).lt_or_eq with h' | h'
+    · exact h'
+    · rw [← h'] at hpos; simp at hpos
+  have hc0 : c ≠ 0 := by intro hc; rw [hc] at hpos; simp at hpos
+  rw [so3Exp_closed eps _ h, hn, Vec3.smul_smul]
+  rcases lt_or_gt_of_ne hc0 with hc | hc
+  · rw [abs_of_neg hc]
+    have e1 : -c * v.norm / 2 = -(c * v.norm / 2) := by ring
+    rw [e1, Real.sin_neg, Real.cos_neg]
+    congr 2
+    field_simp
+  · rw [abs_of_pos hc]
+    congr 2
+    field_simp
+
+/-- two points of the one-parameter subgroup through `v`: their squared distance is `2 − 2cos(a−b) ≤ (a−b)²` -/
+theorem distSq_dir_le (v : Vec3 ℝ) (hv : 0 < v.norm) (a b : ℝ) :
+    Quat.distSq (Quat.mk' (v.smul (Real.sin a / v.norm)) (Real.cos a))
+      (Quat.mk' (v.smul (Real.sin b / v.norm)) (Real.cos b)) ≤ (a - b) ^ 2 := by
+  have hn : v.x * v.x + v.y * v.y + v.z * v.z = v.norm * v.norm := by rw [Vec3.norm_sq]; rfl
+  have hn0 : v.norm ≠ 0 := ne_of_gt hv
+  have key : Quat.distSq (Quat.mk' (v.smul (Real.sin a / v.norm)) (Real.cos a))
+      (Quat.mk' (v.smul (Real.sin b / v.norm)) (Real.cos b))
+      = (Real.sin a - Real.sin b) ^ 2 + (Real.cos a - Real.cos b) ^ 2 := by
+    unfold Quat.distSq
+    simp only [Quat.mk', Vec3.smul]
+    have : (Real.sin a / v.norm * v.x - Real.sin b / v.norm * v.x) ^ 2 +
+        (Real.sin a / v.norm * v.y - Real.sin b / v.norm * v.y) ^ 2 +
+        (Real.sin a / v.norm * v.z - Real.sin b / v.norm * v.z) ^ 2
+        = (Real.sin a - Real.sin b) ^ 2 * ((v.x * v.x + v.y * v.y + v.z * v.z) / (v.norm * v.norm)) := by
+      field_simp
+    rw [this, hn, div_self (mul_ne_zero hn0 hn0), mul_one]
+  rw [key]
+  have h1 := Real.sin_sq_add_cos_sq a
+  have h2 := Real.sin_sq_add_cos_sq b
+  have h3 := Real.cos_sub a b
+  have h4 := Real.one_sub_sq_div_two_le_cos (x := a - b)
+  nlinarith
+/-- `sign(w)·q` written on the one-parameter subgroup through `v`: angle `atan(‖v‖/w)` -/
+theorem scale_eq_dir (q : Quat ℝ) (hq : q.normSq = 1) (hv : 0 < q.vec.norm) (hw : q.w ≠ 0) :
+    Quat.scale (|q.w| / q.w) q =
+      Quat.mk' (q.vec.smul (Real.sin (Real.arctan (q.vec.norm / q.w)) / q.vec.norm))
+        (Real.cos (Real.arctan (q.vec.norm / q.w))) := by
+  have hu := unit_parts q hq
+  rw [sin_arctan_div hw hu, cos_arctan_div hw hu]
+  unfold Quat.scale
+  have hn0 : q.vec.norm ≠ 0 := ne_of_gt hv
+  generalize q.vec.norm = n at hn0 ⊢
+  ext <;> simp only [Quat.mk', Quat.vec, Vec3.smul] <;> field_simp
+
+/-- the closed form of `so3_Exp` as a function on all of ℝ³ (the code uses it for `‖x‖ > eps`) -/
+noncomputable def expClosed (x : Vec3 ℝ) : Quat ℝ :=
+  Quat.mk' (x.smul (Real.sin (x.norm / 2) / x.norm)) (Real.cos (x.norm / 2))
+
+theorem so3Exp_eq_expClosed (eps : ℝ) (x : Vec3 ℝ) (h : eps < x.norm) : so3Exp eps x = expClosed x :=
+  so3Exp_closed eps x h
+
+theorem expClosed_dir (v : Vec3 ℝ) (c : ℝ) (hv0 : 0 < v.norm) (hc0 : c ≠ 0) :
+    expClosed (v.smul c) = Quat.mk' (v.smul (Real.sin (c * v.norm / 2) / v.norm)) (Real.cos (c * v.norm / 2)) := by
+  have hn : (v.smul c).norm = |c| * v.norm := Vec3.norm_smul c v
+  unfold expClosed
+  rw [hn, Vec3.smul_smul]
+  rcases lt_or_gt_of_ne hc0 with hc | hc
+  · rw [abs_of_neg hc]
+    have e1 : -c * v.norm / 2 = -(c * v.norm / 2) := by ring
+    rw [e1, Real.sin_neg, Real.cos_neg]
+    congr 2
+    field_simp
+  · rw [abs_of_pos hc]
+    congr 2
+    field_simp
+
+/-- Taylor branch of `so3_Exp` against the closed form: `‖·‖² ≤ (θ/2)⁸/50` for `0 < θ ≤ 1` -/
+theorem so3Exp_taylor_near_closed (eps : ℝ) (x : Vec3 ℝ) (h : ¬ eps < x.norm) (hx : 0 < x.norm) (h1 : x.norm ≤ 1) :
+    Quat.distSq (so3Exp eps x) (expClosed x) ≤ (x.norm / 2) ^ 8 / 50 := by
+  have hn : x.x * x.x + x.y * x.y + x.z * x.z = x.norm * x.norm := by rw [Vec3.norm_sq]; rfl
+  have hns : x.normSq = x.norm * x.norm := (Vec3.norm_sq x).symm
+  rw [so3Exp_taylor eps x h]
+  unfold expClosed Quat.distSq
+  simp only [Quat.mk', Vec3.smul]
+  rw [hns]
+  generalize x.norm = θ at *
+  have hθ0 : θ ≠ 0 := ne_of_gt hx
+  obtain ⟨u, hu⟩ : ∃ u, u = θ / 2 := ⟨_, rfl⟩
+  have hθu : θ = 2 * u := by linarith
+  have hu0 : 0 < u := by linarith
+  have hu1 : u ≤ 1 / 2 := by linarith
+  have hsb := Real.sin_bound (x := u) (by rw [abs_of_pos hu0]; linarith)
+  have hcb := Real.cos_bound (x := u) (by rw [abs_of_pos hu0]; linarith)
+  rw [abs_of_pos hu0] at hsb hcb
+  rw [← hu]
+  have e : ((1 / 2 - 1 / 48 * (θ * θ) + 1 / 3840 * (θ * θ * (θ * θ))) * x.x - Real.sin u / θ * x.x) ^ 2 +
+      ((1 / 2 - 1 / 48 * (θ * θ) + 1 / 3840 * (θ * θ * (θ * θ))) * x.y - Real.sin u / θ * x.y) ^ 2 +
+      ((1 / 2 - 1 / 48 * (θ * θ) + 1 / 3840 * (θ * θ * (θ * θ))) * x.z - Real.sin u / θ * x.z) ^ 2
+      = ((u - u ^ 3 / 6 + u ^ 5 / 120) - Real.sin u) ^ 2 * ((x.x * x.x + x.y * x.y + x.z * x.z) / (θ * θ)) := by
+    rw [hθu]; field_simp; ring
+  rw [e, hn, div_self (mul_ne_zero hθ0 hθ0), mul_one]
+  have e2 : 1 - 1 / 8 * (θ * θ) + 1 / 384 * (θ * θ * (θ * θ)) = 1 - u ^ 2 / 2 + u ^ 4 / 24 := by rw [hθu]; ring
+  rw [e2]
+  have hs' : |u - u ^ 3 / 6 + u ^ 5 / 120 - Real.sin u| ≤ u ^ 5 / 50 := by
+    have : u - u ^ 3 / 6 + u ^ 5 / 120 - Real.sin u = -(Real.sin u - (u - u ^ 3 / 6)) + u ^ 5 / 120 := by ring
+    rw [this]
+    have h5 : 0 ≤ u ^ 5 := by positivity
+    calc |-(Real.sin u - (u - u ^ 3 / 6)) + u ^ 5 / 120| ≤ |-(Real.sin u - (u - u ^ 3 / 6))| + |u ^ 5 / 120| := abs_add_le _ _
+      _ ≤ u ^ 5 / 100 + u ^ 5 / 120 := by rw [abs_neg, abs_of_nonneg (by positivity : 0 ≤ u ^ 5 / 120)]; linarith
+      _ ≤ u ^ 5 / 50 := by linarith
+  have hc' : |1 - u ^ 2 / 2 + u ^ 4 / 24 - Real.cos u| ≤ u ^ 4 / 10 := by
+    have : 1 - u ^ 2 / 2 + u ^ 4 / 24 - Real.cos u = -(Real.cos u - (1 - u ^ 2 / 2)) + u ^ 4 / 24 := by ring
+    rw [this]
+    have h4 : 0 ≤ u ^ 4 := by positivity
+    calc |-(Real.cos u - (1 - u ^ 2 / 2)) + u ^ 4 / 24| ≤ |-(Real.cos u - (1 - u ^ 2 / 2))| + |u ^ 4 / 24| := abs_add_le _ _
+      _ ≤ u ^ 4 * (5 / 96) + u ^ 4 / 24 := by rw [abs_neg, abs_of_nonneg (by positivity : 0 ≤ u ^ 4 / 24)]; linarith
+      _ ≤ u ^ 4 / 10 := by linarith
+  have s1 : (u - u ^ 3 / 6 + u ^ 5 / 120 - Real.sin u) ^ 2 ≤ (u ^ 5 / 50) ^ 2 := sq_le_sq' (by linarith [neg_abs_le (u - u ^ 3 / 6 + u ^ 5 / 120 - Real.sin u)]) (le_trans (le_abs_self _) hs')
+  have s2 : (1 - u ^ 2 / 2 + u ^ 4 / 24 - Real.cos u) ^ 2 ≤ (u ^ 4 / 10) ^ 2 := sq_le_sq' (by linarith [neg_abs_le (1 - u ^ 2 / 2 + u ^ 4 / 24 - Real.cos u)]) (le_trans (le_abs_self _) hc')
+  have hu8 : 0 ≤ u ^ 8 := by positivity
+  have hu10 : u ^ 10 ≤ u ^ 8 := by
+    have : u ^ 10 = u ^ 8 * u ^ 2 := by ring
+    rw [this]
+    have hu2 : u ^ 2 ≤ 1 := by nlinarith
+    exact mul_le_of_le_one_right hu8 hu2
+  have e3 : (u ^ 5 / 50) ^ 2 = u ^ 10 / 2500 := by ring
+  have e4 : (u ^ 4 / 10) ^ 2 = u ^ 8 / 100 := by ring
+  rw [e3] at s1; rw [e4] at s2
+  linarith
+
+
+theorem Quat.distSq_triangle (a b c : Quat ℝ) : Quat.distSq a c ≤ 2 * Quat.distSq a b + 2 * Quat.distSq b c := by
+  unfold Quat.distSq
+  nlinarith [sq_nonneg (a.x - b.x - (b.x - c.x)), sq_nonneg (a.y - b.y - (b.y - c.y)), sq_nonneg (a.z - b.z - (b.z - c.z)),
+    sq_nonneg (a.w - b.w - (b.w - c.w))]
+
+theorem Quat.distSq_self (a : Quat ℝ) : Quat.distSq a a = 0 := by unfold Quat.distSq; ring
+
+/-- the closed form of `Exp` applied to the regime-3 logarithm -/
+theorem expClosed_log3_dist (eps : ℝ) (q : Quat ℝ) (hq : q.normSq = 1) (he : eps ≤ 1 / 2)
+    (h1 : ¬ eps < q.vec.norm) (hv : 0 < q.vec.norm) :
+    Quat.distSq (expClosed (SO3Log eps q)) (Quat.scale (|q.w| / q.w) q) ≤ (q.vec.norm ^ 5 / (5 * |q.w| ^ 5)) ^ 2 := by
+  have hu := unit_parts q hq
+  have hn2 : q.vec.norm ≤ 1 / 2 := by linarith [not_lt.mp h1]
+  have hw2 : 3 / 4 ≤ q.w * q.w := by nlinarith
+  have hw : q.w ≠ 0 := by intro h; rw [h] at hw2; norm_num at hw2
+  have hwa : 0 < |q.w| := abs_pos.mpr hw
+  have hL : SO3Log eps q = q.vec.smul (so3LogFactor eps q.vec.norm q.w) := rfl
+  have hf : so3LogFactor eps q.vec.norm q.w ≠ 0 := by
+    rw [so3LogFactor_r3 _ _ _ h1]
+    have e : 2 * (1 / q.w - q.vec.norm * q.vec.norm / (3 * (q.w * q.w * q.w)))
+        = 2 * (3 * (q.w * q.w) - q.vec.norm * q.vec.norm) / (3 * (q.w * q.w * q.w)) := by field_simp
+    rw [e]
+    apply div_ne_zero
+    · have : 0 < 3 * (q.w * q.w) - q.vec.norm * q.vec.norm := by nlinarith
+      positivity
+    · exact mul_ne_zero (by norm_num) (mul_ne_zero (mul_ne_zero hw hw) hw)
+  rw [hL, expClosed_dir q.vec _ hv hf, scale_eq_dir q hq hv hw]
+  refine le_trans (distSq_dir_le q.vec hv _ _) ?_
+  have herr := so3LogFactor_r3_error eps q.vec.norm q.w h1 hv hw
+  have e : so3LogFactor eps q.vec.norm q.w * q.vec.norm / 2 - Real.arctan (q.vec.norm / q.w)
+      = (q.vec.norm / 2) * (so3LogFactor eps q.vec.norm q.w - 2 * Real.arctan (q.vec.norm / q.w) / q.vec.norm) := by
+    field_simp
+  have e2 : q.vec.norm / 2 * (2 * q.vec.norm ^ 4 / (5 * |q.w| ^ 5)) = q.vec.norm ^ 5 / (5 * |q.w| ^ 5) := by
+    field_simp
+  have h2 : 0 ≤ q.vec.norm / 2 := by positivity
+  rw [e]
+  apply sq_le_sq'
+  · have := neg_abs_le (so3LogFactor eps q.vec.norm q.w - 2 * Real.arctan (q.vec.norm / q.w) / q.vec.norm)
+    rw [← e2]; nlinarith
+  · have := le_abs_self (so3LogFactor eps q.vec.norm q.w - 2 * Real.arctan (q.vec.norm / q.w) / q.vec.norm)
+    rw [← e2]; nlinarith
+
+/-- `(‖v‖⁵/(5|w|⁵))² ≤ ‖v‖¹⁰` for a unit quaternion with `‖v‖ ≤ 1/4` -/
+theorem r3_bound_le (q : Quat ℝ) (hq : q.normSq = 1) (hn : q.vec.norm ≤ 1 / 4) :
+    (q.vec.norm ^ 5 / (5 * |q.w| ^ 5)) ^ 2 ≤ q.vec.norm ^ 10 := by
+  have hu := unit_parts q hq
+  have hn0 := Vec3.norm_nonneg q.vec
+  have hw2 : 15 / 16 ≤ |q.w| * |q.w| := by rw [abs_mul_abs_self]; nlinarith
+  have hwa0 := abs_nonneg q.w
+  have hw1 : |q.w| ≤ 1 := by nlinarith [abs_mul_abs_self q.w]
+  have hwl : 15 / 16 ≤ |q.w| := by nlinarith
+  have hw5 : (1 : ℝ) ≤ 5 * |q.w| ^ 5 := by
+    have h2 : (15 / 16 : ℝ) ^ 5 ≤ |q.w| ^ 5 := pow_le_pow_left₀ (by norm_num) hwl 5
+    have : (1 : ℝ) / 5 ≤ (15 / 16 : ℝ) ^ 5 := by norm_num
+    linarith
+  have hpos : 0 < 5 * |q.w| ^ 5 := by linarith
+  rw [div_pow, div_le_iff₀ (by positivity)]
+  have e : (q.vec.norm ^ 5) ^ 2 = q.vec.norm ^ 10 := by ring
+  rw [e]
+  have h10 : 0 ≤ q.vec.norm ^ 10 := by positivity
+  have : (1 : ℝ) ≤ (5 * |q.w| ^ 5) ^ 2 := by nlinarith
+  nlinarith
+
+
+/-! ## perturbation of a point by a near-identity unit quaternion (backward form of `Log (X⁻¹) = −Log X`) -/
+
+/-- a unit quaternion moves a point by at most `2‖vec r‖·‖t‖`: `‖r·t − t‖² = 4(‖u‖²‖t‖² − (u·t)²)` -/
+theorem Quat.act_sub_normSq (r : Quat ℝ) (hr : r.normSq = 1) (t : Vec3 ℝ) :
+    ((r.act t).sub t).normSq = 4 * (r.vec.normSq * t.normSq - (r.vec.dot t) ^ 2) := by
+  have h' : r.x * r.x + r.y * r.y + r.z * r.z + r.w * r.w = 1 := hr
+  lie_unfold
+  linear_combination (4 * ((r.x * r.x + r.y * r.y + r.z * r.z) * (t.x * t.x + t.y * t.y + t.z * t.z)
+    - (r.x * t.x + r.y * t.y + r.z * t.z) ^ 2)) * h'
+
+theorem Quat.act_sub_normSq_le (r : Quat ℝ) (hr : r.normSq = 1) (t : Vec3 ℝ) :
+    ((r.act t).sub t).normSq ≤ 4 * r.vec.normSq * t.normSq := by
+  rw [Quat.act_sub_normSq r hr t]
+  nlinarith [sq_nonneg (r.vec.dot t)]
+
+/-- vector part of `E·q*` when `E` is close to `s·q` (`s = ±1`, `q` unit): `‖vec(E q*)‖² ≤ ‖E − s q‖²` -/
+theorem Quat.vec_mul_conj_le (E q : Quat ℝ) (hq : q.normSq = 1) (s : ℝ) :
+    (E.mul q.conj).vec.normSq ≤ Quat.distSq E (Quat.scale s q) := by
+  have h' : q.x * q.x + q.y * q.y + q.z * q.z + q.w * q.w = 1 := hq
+  -- E q* = s·(q q*) + (E − s q) q*, and vec(q q*) = 0
+  have key : (E.mul q.conj).vec.normSq + ((E.mul q.conj).w - s) ^ 2 = Quat.distSq E (Quat.scale s q) := by
+    unfold Quat.distSq Quat.scale
+    lie_unfold
+    linear_combination (E.x ^ 2 + E.y ^ 2 + E.z ^ 2 + E.w ^ 2 - s ^ 2) * h'
+  nlinarith [sq_nonneg ((E.mul q.conj).w - s)]
+/-- `Jl⁻¹(−x)·u = Jl⁻¹(x)·(Exp(x)·u)` on the closed-form branch -/
+theorem so3JlInv_neg_mulVec (eps : ℝ) (x : Vec3 ℝ) (h0 : 0 ≤ eps) (h : eps < x.norm)
+    (hS : Real.sin (x.norm / 2) ≠ 0) (u : Vec3 ℝ) :
+    (so3JlInv eps x.neg).mulVec u = (so3JlInv eps x).mulVec ((so3Exp eps x).act u) := by
+  have hE : (so3Exp eps x).normSq = 1 := so3Exp_normSq_closed eps x h0 h
+  have := so3JlInv_neg_conj_act eps x h0 h hS ((so3Exp eps x).act u)
+  rw [Quat.conj_act_act _ hE] at this
+  exact this
+
+
 /-! ## fixed sample values used by the non-vacuity examples of `Proofs/Props/C02.lean` -/
 namespace C02Ex
 
